@@ -28,7 +28,7 @@ func init() {
 		},
 		Real:       []string{"db", "db/mem", "db/fs (compiled against the simulated os)", "db/postgres", "lang"},
 		Stub:       []string{"store client (seeded operation generator)", "OS filesystem (simfs)", "Postgres server (pgfake)"},
-		FaultKinds: []string{"reopen", "lookup_miss"},
+		FaultKinds: []string{"caller_buffer_reuse", "reopen", "lookup_miss"},
 	})
 }
 
@@ -63,6 +63,7 @@ func runC10(c *core.Ctx) *core.Outcome {
 	memOff, memSealed := false, false
 	var memSealLock uint8
 	nops := t.Range(3, 40)
+	reuseBuffers := t.Chance(1, 2)
 	valN := 0
 	fellBack, lockedRefused, overwritten, readHits := 0, 0, 0, 0
 	written := map[string]int{}
@@ -230,7 +231,18 @@ func runC10(c *core.Ctx) *core.Outcome {
 				if !syncMem(m) {
 					continue
 				}
-				err := m.handles[hidx(m)].Put(ctxWithLang(ctxLg), []byte(key), val)
+				kbuf, vbuf := []byte(key), append([]byte{}, val...)
+				err := m.handles[hidx(m)].Put(ctxWithLang(ctxLg), kbuf, vbuf)
+				if reuseBuffers {
+					// the caller reuses its buffers for something else once Put has returned
+					for j := range vbuf {
+						vbuf[j] = '#'
+					}
+					for j := range kbuf {
+						kbuf[j] = '#'
+					}
+					o.Faults["caller_buffer_reuse"]++
+				}
 				if err != nil {
 					errCount++
 					if firstErr == nil {
@@ -306,6 +318,13 @@ func runC10(c *core.Ctx) *core.Outcome {
 					}
 					if !bytes.Equal(got, want) {
 						return fail("get-wrong-value", i, "%s on %s returned %q; the latest successful write was %q", trace[len(trace)-1], m.name, got, want)
+					}
+					if reuseBuffers {
+						// ... and does what it likes with the slice a Get handed out
+						for j := range got {
+							got[j] = '%'
+						}
+						o.Faults["caller_buffer_reuse"]++
 					}
 				} else {
 					if err == nil {
